@@ -314,7 +314,7 @@ def table_obligations(rep, dname):
     rep.census[f'{dname}.operator_rules'] = len(rules)
     rep.census[f'{dname}.decision_rows'] = n_rows
     if n_rows == 0 or not rules:
-        rep.failed(f'C03.vacuity.{dname}', 'lrtab', 'no operator rule / decision row found: grammar shape changed, contract needs review')
+        rep.undecided(f'C03.vacuity.{dname}', 'lrtab', 'no operator rule / decision row found: the grammar is organised differently, the table obligations are vacuous (contract needs review)')
 
 
 # ------------------------------------------------------------------ parenthesis action (pysym)
